@@ -124,8 +124,9 @@ func c09GoPolicy(site string) seamrt.GoPolicy {
 	switch {
 	case strings.HasPrefix(site, "core/state/manager.go"):
 		return seamrt.GoTask // snapshot download helper goroutines
-	case strings.HasPrefix(site, "blockchain/blockchain.go:") && len(site) >= len("blockchain/blockchain.go:")+4:
-		// (the only other go statement of the file, ipfsLoad in InitializeChain, sits in the first 999 lines)
+	case strings.HasPrefix(site, "blockchain/blockchain.go:") && strings.Contains(site, ":AtomicSwitchToPreliminary/"):
+		// (sites are named file:line:enclosingFunc/callee; the file's other go statement - ipfsLoad in InitializeChain -
+		// blocks on a channel for ever and must not run inline)
 		return seamrt.GoInline // clean-up of the dropped databases after AtomicSwitchToPreliminary: its deletes are storage units too
 	}
 	return seamrt.GoNever
